@@ -268,7 +268,21 @@ def handle (j : Json) : Except String Json := do
     pure (jArr outs)
   | "render" =>
     let r ← getRenderReq j
-    pure (jOutcome (render r))
+    pure (jOutcome (renderStr SniffCfg.live r))
+  | "renderb" =>
+    -- the template body as bytes (array of numbers in "src")
+    let r ← getRenderReq j
+    pure (jOutcome (renderBytes SniffCfg.live stdDecode r r.src))
+  | "sniff" =>
+    let b ← getStr j "b"
+    pure (match readBytes SniffCfg.live stdDecode b with
+      | .ok doc enc ct => Json.mkObj [("doc", jArr (doc.map jNat)), ("encoding", jStr enc),
+          ("content_type", match ct with | some c => jStr c | none => Json.null)]
+      | .decodeError => Json.mkObj [("exc", "UnicodeDecodeError")]
+      | .unknownCodec n => Json.mkObj [("unsupported", jStr n)])
+  | "strct" =>
+    let s ← getStr j "s"
+    pure (match strContentType SniffCfg.live s with | some c => jStr c | none => Json.null)
   | "static" =>
     let s ← getStr j "s"
     pure (jSRes (staticRenderWith (getRx j) (getQuirks j) true s))
